@@ -4,6 +4,8 @@
   §1 projections of `setPipe`, arithmetic of `Pipe.pull`
   §2 the invariant `Inv` of the tunnel machine and its preservation by every step
   §3 reachability (`runFrom`) and what is frozen once a direction has finished
+  §4 the clock of the grace period: the timed machine refines the untimed one (`trun_erase`), its
+     invariant `TInv` (timer started iff a direction finished, fired only within its window)
 -/
 import FwdVerif.Model.C03
 
@@ -677,6 +679,310 @@ theorem stream_up_prefix_of_cons {c : Cfg} {s : State} (hi : Inv c s) (hp : s.ph
 
 theorem isPrefixOf_true_of_prefix {a b : Bytes} (h : a <+: b) : a.isPrefixOf b = true :=
   List.isPrefixOf_iff_prefix.mpr h
+
+/-! ## §4 the clock of the grace period -/
+
+@[simp] theorem setPipe_phase (s : State) (d : Dir) (p : Pipe) : (s.setPipe d p).phase = s.phase := by
+  cases d <;> rfl
+@[simp] theorem setPipe_expired (s : State) (d : Dir) (p : Pipe) : (s.setPipe d p).expired = s.expired := by
+  cases d <;> rfl
+@[simp] theorem setPipe_grace (s : State) (d : Dir) (p : Pipe) : (s.setPipe d p).grace = s.grace := by
+  cases d <;> rfl
+
+/-- what the forced close does -/
+theorem step_graceExpire_spec {c : Cfg} {s s' : State} (h : step c s .graceExpire = some s') :
+    s.phase = .tunnel ∧ s.grace = true ∧ s'.phase = .closed ∧ s'.expired = true ∧ s'.grace = s.grace ∧
+      s'.closedC = true ∧ s'.closedT = true ∧
+      s'.up.delivered = s.up.delivered ∧ s'.down.delivered = s.down.delivered ∧
+      s'.up.written = s.up.written ∧ s'.down.written = s.down.written ∧
+      s'.up.eof = s.up.eof ∧ s'.down.eof = s.down.eof := by
+  simp only [step] at h
+  split at h
+  · rename_i hc
+    have := some_inj h; subst this
+    exact ⟨hc.1, hc.2, rfl, rfl, rfl, rfl, rfl, rfl, rfl, rfl, rfl, rfl, rfl⟩
+  · exact absurd h (by simp)
+
+theorem step_graceExpire_enabled {c : Cfg} {s : State} (hp : s.phase = .tunnel) (hg : s.grace = true) :
+    ∃ s', step c s .graceExpire = some s' := by
+  simp only [step]
+  rw [if_pos ⟨hp, hg⟩]
+  exact ⟨_, rfl⟩
+
+/-- `closed` is absorbing, and nothing fires in it -/
+theorem step_closed {c : Cfg} {s s' : State} {st : Step} (hp : s.phase = .closed)
+    (h : step c s st = some s') : s'.phase = .closed ∧ s'.expired = s.expired := by
+  cases st <;> simp only [step] at h <;> (repeat' split at h) <;>
+    first
+      | (have := some_inj h; subst this; simp_all; done)
+      | (simp at h; done)
+
+/-- only the timer sets `expired` -/
+theorem step_expired_eq {c : Cfg} {s s' : State} {st : Step} (hne : st ≠ .graceExpire)
+    (h : step c s st = some s') : s'.expired = s.expired := by
+  cases st <;> simp only [step] at h <;> (repeat' split at h) <;>
+    first
+      | (exact absurd rfl hne; done)
+      | (have := some_inj h; subst this; simp; done)
+      | (simp at h; done)
+
+/-- once a direction has finished, `grace` stays -/
+theorem step_grace_mono {c : Cfg} {s s' : State} {st : Step} (hg : s.grace = true)
+    (h : step c s st = some s') : s'.grace = true := by
+  cases st <;> simp only [step] at h <;> (repeat' split at h) <;>
+    first
+      | (have := some_inj h; subst this; simp [hg]; done)
+      | (simp at h; done)
+
+/-- what finishing a direction does to its own pipe -/
+theorem step_eof_spec {c : Cfg} {s s' : State} {d : Dir} (h : step c s (.eof d) = some s') :
+    (s'.pipe d).done = true ∧ (s'.pipe d).eof = true := by
+  simp only [step] at h
+  split at h
+  · split at h <;> (have := some_inj h; subst this; cases d <;> exact ⟨rfl, rfl⟩)
+  · exact absurd h (by simp)
+
+theorem runFrom_closed {c : Cfg} {s s' : State} {steps : List Step} (hp : s.phase = .closed)
+    (h : runFrom c s steps = some s') : s'.phase = .closed ∧ s'.expired = s.expired := by
+  induction steps generalizing s with
+  | nil => have := some_inj h; subst this; exact ⟨hp, rfl⟩
+  | cons st rest ih =>
+    obtain ⟨m, hm, hr⟩ := runFrom_cons h
+    have x := step_closed hp hm
+    have y := ih x.1 hr
+    exact ⟨y.1, by rw [y.2, x.2]⟩
+
+/-- a direction has finished and the machine is not closed: it is in phase `tunnel` -/
+theorem phase_tunnel_of_grace {c : Cfg} {s : State} (hi : Inv c s) (hg : s.grace = true)
+    (hnc : s.phase ≠ .closed) : s.phase = .tunnel := by
+  have hd := hi.grace.mp hg
+  cases hs : s.phase
+  · have := hi.early (Or.inl hs); simp_all
+  · have := hi.early (Or.inr (Or.inl hs)); simp_all
+  · have := hi.early (Or.inr (Or.inr hs)); simp_all
+  · rfl
+  · exact absurd hs hnc
+
+theorem trunFrom_cons {c : Cfg} {τ : Timing} {t t' : TState} {st : TStep} {rest : List TStep}
+    (h : trunFrom c τ t (st :: rest) = some t') :
+    ∃ m, tstep c τ t st = some m ∧ trunFrom c τ m rest = some t' := by
+  simp only [trunFrom] at h
+  split at h
+  · exact absurd h (by simp)
+  · rename_i m hm
+    exact ⟨m, hm, h⟩
+
+theorem trunFrom_append {c : Cfg} {τ : Timing} {t : TState} {a b : List TStep} :
+    trunFrom c τ t (a ++ b) = (trunFrom c τ t a).bind (fun m => trunFrom c τ m b) := by
+  induction a generalizing t with
+  | nil => rfl
+  | cons st rest ih =>
+    simp only [List.cons_append, trunFrom]
+    cases tstep c τ t st with
+    | none => rfl
+    | some m => exact ih
+
+/-- the three shapes of an enabled timed step -/
+theorem tstep_cases {c : Cfg} {τ : Timing} {t t' : TState} {st : TStep} (h : tstep c τ t st = some t') :
+    (∃ n, st = .tick n ∧ t.blocked τ n = false ∧ t' = { t with now := t.now + n }) ∨
+    (st = .act .graceExpire ∧ t.due τ = true ∧
+      ∃ s', step c t.s .graceExpire = some s' ∧ t' = { t with s := s', expiredAt := some t.now }) ∨
+    (∃ u, st = .act u ∧ u ≠ .graceExpire ∧ ∃ s', step c t.s u = some s' ∧ t' = t.moved s') := by
+  cases st with
+  | tick n =>
+    left
+    simp only [tstep] at h
+    split at h
+    · exact absurd h (by simp)
+    · rename_i hb
+      exact ⟨n, rfl, by simpa using hb, (some_inj h).symm⟩
+  | act u =>
+    right
+    simp only [tstep] at h
+    by_cases hu : u = .graceExpire
+    · left
+      subst hu
+      rw [if_pos rfl] at h
+      split at h
+      · rename_i hd
+        split at h
+        · rename_i s' hs
+          exact ⟨rfl, hd, s', hs, (some_inj h).symm⟩
+        · exact absurd h (by simp)
+      · exact absurd h (by simp)
+    · right
+      rw [if_neg hu] at h
+      split at h
+      · rename_i s' hs
+        exact ⟨u, rfl, hu, s', hs, (some_inj h).symm⟩
+      · exact absurd h (by simp)
+
+/-- erasing the ticks of a timed run gives a run of the untimed machine -/
+theorem tstep_erase {c : Cfg} {τ : Timing} {t t' : TState} {st : TStep} (h : tstep c τ t st = some t') :
+    runFrom c t.s (erase [st]) = some t'.s := by
+  rcases tstep_cases h with ⟨n, rfl, _, rfl⟩ | ⟨rfl, _, s', hs, rfl⟩ | ⟨u, rfl, _, s', hs, rfl⟩
+  · rfl
+  · simp only [erase, runFrom, hs]
+  · simp only [erase, runFrom, hs, TState.moved]
+
+theorem erase_cons (st : TStep) (rest : List TStep) : erase (st :: rest) = erase [st] ++ erase rest := by
+  cases st <;> rfl
+
+theorem trunFrom_erase {c : Cfg} {τ : Timing} {t t' : TState} {steps : List TStep}
+    (h : trunFrom c τ t steps = some t') : runFrom c t.s (erase steps) = some t'.s := by
+  induction steps generalizing t with
+  | nil => have := some_inj h; subst this; rfl
+  | cons st rest ih =>
+    obtain ⟨m, hm, hr⟩ := trunFrom_cons h
+    rw [erase_cons, runFrom_append, tstep_erase hm]
+    exact ih hr
+
+theorem trun_erase {c : Cfg} {τ : Timing} {t : TState} {steps : List TStep}
+    (h : trun c τ steps = some t) : run c (erase steps) = some t.s :=
+  trunFrom_erase h
+
+/-- the invariant of the timed machine -/
+structure TInv (c : Cfg) (τ : Timing) (t : TState) : Prop where
+  inv : Inv c t.s
+  /-- the timer has been started iff a direction has finished -/
+  armed : t.armedAt.isSome = t.s.grace
+  armedLe : ∀ a, t.armedAt = some a → a ≤ t.now
+  /-- a pending timer is not overdue by more than the slack -/
+  bound : ∀ a, t.armedAt = some a → t.s.phase = .tunnel → t.now ≤ a + τ.period + τ.slack
+  expAt : t.expiredAt.isSome = t.s.expired
+  /-- the timer fired within `[armedAt + period, armedAt + period + slack]` -/
+  expWin : ∀ e, t.expiredAt = some e →
+    ∃ a, t.armedAt = some a ∧ a + τ.period ≤ e ∧ e ≤ a + τ.period + τ.slack ∧ e ≤ t.now
+
+theorem tinv_init (c : Cfg) (τ : Timing) : TInv c τ tinit := by
+  refine ⟨inv_init c, rfl, ?_, ?_, rfl, ?_⟩ <;> intro a h <;> simp [tinit] at h
+
+theorem tinv_step {c : Cfg} {τ : Timing} {t t' : TState} {st : TStep} (hi : TInv c τ t)
+    (h : tstep c τ t st = some t') : TInv c τ t' := by
+  rcases tstep_cases h with ⟨n, rfl, hb, rfl⟩ | ⟨rfl, hd, s', hs, rfl⟩ | ⟨u, rfl, hu, s', hs, rfl⟩
+  · -- time passes
+    refine ⟨hi.inv, hi.armed, ?_, ?_, hi.expAt, ?_⟩
+    · intro a ha
+      have := hi.armedLe a ha
+      show a ≤ t.now + n
+      omega
+    · intro a ha hp
+      show t.now + n ≤ a + τ.period + τ.slack
+      simp only [TState.blocked] at hb
+      have ha' : t.armedAt = some a := ha
+      have hp' : t.s.phase = .tunnel := hp
+      rw [ha'] at hb
+      simp only [hp', decide_true, Bool.true_and, decide_eq_false_iff_not] at hb
+      omega
+    · intro e he
+      obtain ⟨a, h1, h2, h3, h4⟩ := hi.expWin e he
+      exact ⟨a, h1, h2, h3, by show e ≤ t.now + n; omega⟩
+  · -- the timer fires
+    obtain ⟨hp, hg, hp', hx, hg', _⟩ := step_graceExpire_spec hs
+    have hsome : t.armedAt.isSome = true := by rw [hi.armed]; exact hg
+    obtain ⟨a, ha⟩ := Option.isSome_iff_exists.mp hsome
+    have hdue : a + τ.period ≤ t.now := by
+      simp only [TState.due, ha, decide_eq_true_eq] at hd
+      exact hd
+    refine ⟨inv_step hi.inv hs, ?_, hi.armedLe, ?_, ?_, ?_⟩
+    · show t.armedAt.isSome = s'.grace
+      rw [hg', hi.armed]
+    · intro a' _ hpt
+      have hpt' : s'.phase = .tunnel := hpt
+      rw [hp'] at hpt'
+      exact absurd hpt' (by decide)
+    · show (some t.now).isSome = s'.expired
+      rw [hx]; rfl
+    · intro e he
+      have he' : some t.now = some e := he
+      have := some_inj he'
+      subst this
+      exact ⟨a, ha, hdue, hi.bound a ha hp, Nat.le_refl _⟩
+  · -- a step of the untimed machine
+    have hinv := inv_step hi.inv hs
+    have hexp := step_expired_eq hu hs
+    refine ⟨hinv, ?_, ?_, ?_, ?_, ?_⟩
+    · show (t.moved s').armedAt.isSome = s'.grace
+      simp only [TState.moved]
+      cases ha : t.armedAt with
+      | some a =>
+        have : t.s.grace = true := by rw [← hi.armed, ha]; rfl
+        rw [step_grace_mono this hs]; rfl
+      | none =>
+        cases hg : s'.grace <;> simp
+    · intro a ha
+      simp only [TState.moved] at ha
+      show a ≤ t.now
+      cases hb : t.armedAt with
+      | some b => rw [hb] at ha; exact hi.armedLe a (by rw [hb]; exact ha)
+      | none =>
+        rw [hb] at ha
+        by_cases hg : s'.grace = true
+        · rw [if_pos hg] at ha; have := some_inj ha; omega
+        · rw [if_neg hg] at ha; exact absurd ha (by simp)
+    · intro a ha hp
+      simp only [TState.moved] at ha hp
+      show t.now ≤ a + τ.period + τ.slack
+      cases hb : t.armedAt with
+      | some b =>
+        rw [hb] at ha
+        have hab := some_inj ha
+        subst hab
+        have hg : t.s.grace = true := by rw [← hi.armed, hb]; rfl
+        have hnc : t.s.phase ≠ .closed := by
+          intro hcl
+          have := (step_closed hcl hs).1
+          rw [hp] at this
+          exact absurd this (by decide)
+        exact hi.bound b hb (phase_tunnel_of_grace hi.inv hg hnc)
+      | none =>
+        rw [hb] at ha
+        by_cases hg : s'.grace = true
+        · rw [if_pos hg] at ha; have := some_inj ha; omega
+        · rw [if_neg hg] at ha; exact absurd ha (by simp)
+    · show t.expiredAt.isSome = s'.expired
+      rw [hexp, hi.expAt]
+    · intro e he
+      have he' : t.expiredAt = some e := he
+      obtain ⟨a, h1, h2, h3, h4⟩ := hi.expWin e he'
+      refine ⟨a, ?_, h2, h3, h4⟩
+      show (t.moved s').armedAt = some a
+      simp only [TState.moved, h1]
+
+theorem tinv_runFrom {c : Cfg} {τ : Timing} {t t' : TState} {steps : List TStep} (hi : TInv c τ t)
+    (h : trunFrom c τ t steps = some t') : TInv c τ t' := by
+  induction steps generalizing t with
+  | nil => have := some_inj h; subst this; exact hi
+  | cons st rest ih =>
+    obtain ⟨m, hm, hr⟩ := trunFrom_cons h
+    exact ih (tinv_step hi hm) hr
+
+theorem tinv_run {c : Cfg} {τ : Timing} {t : TState} {steps : List TStep}
+    (h : trun c τ steps = some t) : TInv c τ t :=
+  tinv_runFrom (tinv_init c τ) h
+
+theorem trun_snoc {c : Cfg} {τ : Timing} {steps : List TStep} {t t' : TState} {st : TStep}
+    (h : trun c τ steps = some t) (hx : tstep c τ t st = some t') : trun c τ (steps ++ [st]) = some t' := by
+  unfold trun at *
+  rw [trunFrom_append, h]
+  show trunFrom c τ t [st] = some t'
+  simp only [trunFrom, hx]
+
+/-- the timer is started once: later steps do not move `armedAt` -/
+theorem tstep_armed_stable {c : Cfg} {τ : Timing} {t t' : TState} {st : TStep} {a : Nat}
+    (ha : t.armedAt = some a) (h : tstep c τ t st = some t') : t'.armedAt = some a := by
+  rcases tstep_cases h with ⟨n, rfl, _, rfl⟩ | ⟨rfl, _, s', _, rfl⟩ | ⟨u, rfl, _, s', _, rfl⟩
+  · exact ha
+  · exact ha
+  · simp only [TState.moved, ha]
+
+theorem trunFrom_armed_stable {c : Cfg} {τ : Timing} {t t' : TState} {steps : List TStep} {a : Nat}
+    (ha : t.armedAt = some a) (h : trunFrom c τ t steps = some t') : t'.armedAt = some a := by
+  induction steps generalizing t with
+  | nil => have := some_inj h; subst this; exact ha
+  | cons st rest ih =>
+    obtain ⟨m, hm, hr⟩ := trunFrom_cons h
+    exact ih (tstep_armed_stable ha hm) hr
 
 end C03
 end FwdVerif
